@@ -828,6 +828,63 @@ class Interp:
         finally:
             self.ctx.frame.scopes.pop()
 
+    def s_SwitchStmt(self, n):
+        """switch with fall-through: items of the body in order, entry at the first matching label"""
+        ctx = self.ctx
+        ks = kids(n)
+        idx = 0
+        if n.get("hasInit"):
+            self.stmt(ks[0])
+            idx = 1
+        if n.get("hasVar"):
+            self.stmt(ks[idx])
+            idx += 1
+        v = ctx.rv(self.expr(ks[idx]))
+        body = ks[idx + 1]
+        if body["kind"] != "CompoundStmt":
+            raise Gap("switch body of kind %s" % body["kind"])
+        items = []  # (labels: list of int or 'default', stmt)
+        for c in kids(body):
+            labels = []
+            cur = c
+            while cur["kind"] in ("CaseStmt", "DefaultStmt"):
+                ck = kids(cur)
+                if cur["kind"] == "CaseStmt":
+                    lab = ck[0]
+                    if lab.get("kind") != "ConstantExpr" or "value" not in lab:
+                        raise Gap("case label without a constant value at line %s" % extract.line_of(cur))
+                    labels.append(int(lab["value"]))
+                    cur = ck[-1]
+                else:
+                    labels.append("default")
+                    cur = ck[-1]
+            items.append((labels, cur))
+        start = None
+        default_at = None
+        for i, (labels, st) in enumerate(items):
+            for lab in labels:
+                if lab == "default":
+                    default_at = i
+                elif start is None and ctx.decide(v == lab, "case %s@%s" % (lab, extract.line_of(n))):
+                    start = i
+            if start is not None:
+                break
+        if start is None:
+            start = default_at
+        if start is None:
+            return
+        scope = []
+        ctx.frame.scopes = getattr(ctx.frame, "scopes", [])
+        ctx.frame.scopes.append(scope)
+        try:
+            try:
+                for labels, st in items[start:]:
+                    self.stmt(st)
+            except BreakEx:
+                pass
+        finally:
+            ctx.frame.scopes.pop()
+
     def s_DoStmt(self, n):
         raise Gap("do-while loop at line %s" % extract.line_of(n))
 
@@ -1110,6 +1167,11 @@ class Interp:
     def binop(self, op, lv, rv, n):
         ctx = self.ctx
         if isinstance(lv, Ptr) or isinstance(rv, Ptr):
+            # pointers modelled as integer ids (0 = nullptr) compared with the nullptr literal
+            for a_, b_ in ((lv, rv), (rv, lv)):
+                if isinstance(a_, Ptr) and a_.target is None and isinstance(b_, z3.ExprRef) and z3.is_int(b_) \
+                        and op in ("==", "!="):
+                    return (b_ == 0) if op == "==" else (b_ != 0)
             if op in ("==", "!="):
                 e = self.ptr_eq(lv, rv)
                 return e if op == "==" else z3.Not(e)
@@ -1565,6 +1627,8 @@ class Interp:
             if isinstance(v, Opt):
                 return v
             return Opt(z3.BoolVal(True), v)
+        if "format_string<" in qt:
+            return ctx.fresh("fmt")  # fmt format string: message text only
         if qt.startswith("std::basic_string_view") or qt in ("std::string_view",):
             if args:
                 return self.k.to_string(self, ctx.rv(args[0]))
